@@ -107,6 +107,8 @@ def dump(path):
         g = m.graph
         o['graph_nodes'] = [nm(v) for v in g.nodes]
         o['graph_edges'] = sorted([nm(a), nm(b)] for a, b in g.edges)
+        # the role of every node (graph attribute `variable_type`): a function of the SET of equations
+        o['node_types'] = sorted([nm(v), None if t is None else t.name] for v, t in g.nodes(data='variable_type'))
         nodes = [v for v in vs if v in g.nodes] + m.get_derivatives()
         o['eqsfor'] = [[nm(v), [nm(e.lhs) for e in m.get_equations_for([v])]] for v in nodes]
         o['eqsfor_all'] = [nm(e.lhs) for e in m.get_equations_for(nodes)]
@@ -152,7 +154,7 @@ print(json.dumps([dump(p) for p in sys.argv[1:]]))
 # the order in which dumps are compared: the first differing entry names the oracle key
 OXMETA = 'https://chaste.comlab.ox.ac.uk/cellml/ns/oxford-metadata#'
 QUERIES = ['outcome', 'query_err', 'terms', 'ac_variables', 'ac_equations', 'ac_derived', 'variables', 'vars_full', 'equations', 'states', 'state_inits', 'derivs', 'derived',
-           'free', 'states_unsorted', 'derivs_unsorted', 'derived_unsorted', 'eqsfor', 'eqsfor_all', 'eqsfor_all_units',
+           'free', 'node_types', 'states_unsorted', 'derivs_unsorted', 'derived_unsorted', 'eqsfor', 'eqsfor_all', 'eqsfor_all_units',
            'eqsfor_direct', 'graph_edges', 'sorted_follow_variables', 'eq_leaves', 'eq_leaves_num', 'graph_nodes']
 
 
@@ -390,13 +392,6 @@ def property_failures(runs):
                 continue
             if mode == 'set':
                 a, b = _setform(q, a), _setform(q, b)
-            if a != b and q == 'derived' and isinstance(a, list) and isinstance(b, list) and \
-                    set(a) ^ set(b) == {base['dump'].get('free')}:
-                # the free variable also has a defining equation: Variable.type is whatever Model.graph assigned LAST
-                fails.append({'key': 'permutation:derived-free-variable-with-equation:' + variant,
-                              'detail': 'permuting %s moves the free variable %s in or out of get_derived_quantities(): '
-                                        '%s vs %s' % (variant, base['dump'].get('free'), a, b)})
-                break
             if a != b:
                 fails.append({'key': 'permutation:%s:%s' % (variant, q),
                               'detail': 'permuting %s changed %s (%s): %s' % (
@@ -658,13 +653,16 @@ def compare_dump(label, dump, rep):
                 _names(parts['vars']) == dump['variables'] and _names(parts['eqs']) == dump['eq_lhs']:
             return None
         return '%s: a query of the implementation raised %s, the model answers %s' % (label, dump['query_err'], parts['derivs'])
-    for mine, theirs in (('vars', 'variables'), ('eqs', 'eq_lhs'), ('states', 'states'), ('derivs', 'derivs'),
-                         ('derived', 'derived')):
+    for mine, theirs in (('vars', 'variables'), ('eqs', 'eq_lhs'), ('states', 'states'), ('derivs', 'derivs')):
         if _names(parts[mine]) != dump[theirs]:
             return '%s: %s differ: model %s, implementation %s' % (label, theirs, _names(parts[mine])[:12], dump[theirs][:12])
     mleaves = [sorted(set(_names(ls))) for _, ls in parts['leaves']]
     if mleaves != dump['eq_leaves'] or dump['eq_leaves_num'] != dump['eq_leaves']:
         return None         # SymPy cancelled a reference (x - x, 0*x after substitution): the graph queries are not compared
+    #                         (nor get_derived_quantities: `z = 10 + (I - I)` reaches Model.graph as the bare Quantity 10, so z
+    #                         is PARAMETER for the implementation and COMPUTED for the model, which does not simplify)
+    if _names(parts['derived']) != dump['derived']:
+        return '%s: derived differ: model %s, implementation %s' % (label, _names(parts['derived'])[:12], dump['derived'][:12])
     # the node LIST (networkx insertion order): left-hand sides in equation order, then late state / free nodes in the
     # str order of the references of the equation that brings them in - whatever adversary the model was given
     if _names(parts['nodes']) != dump['graph_nodes']:
@@ -708,15 +706,19 @@ MANIFEST = {
              'itself - node list in networkx insertion order, edge list - is the same for every iteration order of '
              'the reference sets (the property sorts them by str; str keys distinct), so the node order is a function '
              'of Model.equations alone; the code before that fix is kept as graphSet with the proved counterexample '
-             'graph_nodes_set_order_dependent. One order dependence still in the code is reproduced and proved: '
-             'derived_depends_on_equation_order. Element permutations: '
+             'graph_nodes_set_order_dependent. roles_equation_order_independent / derived_equation_order_independent: '
+             'Variable.type of every variable and get_derived_quantities() are invariant under permuting '
+             'Model.equations (Model.graph types all left-hand sides first and assigns STATE, then FREE, afterwards: '
+             'the roles that come from the ODEs win wherever the ODEs stand); the code before that fix is kept as '
+             'typesOld / getDerivedQuantitiesOld with the proved counterexample '
+             'derived_depended_on_equation_order_before_fix. Element permutations: '
              'variables_follow_document and equations_follow_document state exactly which orders follow the document; '
              'element_perm_connections (same roots, variables, maths and constants lists; only the block of conversion '
              'equations is in work-list order), element_perm_ends (identical flat model), element_perm_equations '
              '(equations inside <math>: same variables, same conversion and constant blocks, maths the same set), '
              'element_perm_components (variables() permuted accordingly). Tie: every bundled document and N generated '
              'documents are loaded in separate processes under 8/64 hash seeds and in 9 permuted spellings; the dumps '
-             '(variables, equations, role queries sorted and unsorted, graph nodes and edges, get_equations_for of '
+             '(variables, equations, role queries sorted and unsorted, graph nodes with their variable_type and edges, get_equations_for of '
              'every variable) must be identical across processes, equal up to the documented orders across '
              'permutations, and equal to the dump of the compiled Lean model for the generated documents (all '
              'spellings, five different adversaries).'),
